@@ -45,6 +45,7 @@ Section Resolve.
            | CSome base =>
                match l, r with
                | PVec _ n, PVec _ _ => ROk (PVec CInt n) base base
+               | PMat _ rows cols, PMat _ _ _ => ROk (PMat CInt rows cols) base base
                | _, _ => ROk (PScalar CInt) base base
                end
            end
